@@ -20,26 +20,28 @@ Ret(k) == IF k = "query" THEN "StdResult<QResp>" ELSE "StdResult<Response>"
 P(n, ty) == [n |-> n, ty |-> ty, attrs |-> <<>>, mentions |-> <<>>]
 H(name, k, params) ==
     [name |-> name, vis |-> "", attrs |-> <<A("sv::msg", k)>>, kind |-> k, ctx |-> Ctx(k),
-     params |-> params, ret |-> Ret(k), body |-> "todo!()", retm |-> <<>>]
+     params |-> params, ret |-> Ret(k), body |-> "todo!()", retm |-> <<>>, ctxattr |-> ""]
 New == [name |-> "new", vis |-> "pub const", attrs |-> <<>>, kind |-> "", ctx |-> "",
-        params |-> <<>>, ret |-> "Self", body |-> "Ctr", retm |-> <<>>]
+        params |-> <<>>, ret |-> "Self", body |-> "Ctr", retm |-> <<>>, ctxattr |-> ""]
 BaseItem(id, fam, mac) ==
     [id |-> id, family |-> fam, macro |-> mac, mattr |-> "", attrs |-> <<>>, generics |-> <<>>, wheres |-> <<>>,
-     assoc |-> <<>>, self_ty |-> "Ctr", members |-> <<>>, twin |-> "", overrides |-> <<>>, forwards |-> <<>>]
+     assoc |-> <<>>, self_ty |-> "Ctr", members |-> <<>>, twin |-> "", overrides |-> <<>>, forwards |-> <<>>,
+     noerror |-> FALSE, expect |-> "clean", rule |-> ""]
 
 (* ------------------------------------------------------------------ ep *)
 KindSeq == <<"instantiate", "exec", "query", "sudo", "migrate", "reply">>
 OvAttr(k) == A("sv::override_entry_point", k \o " = crate::ov::" \o k \o "(OvMsg)")
 B2S(b) == IF b THEN "1" ELSE "0"
-EpItem(ov, mig, rep, feat, gen) ==
-    LET ovs == SelectSeq(KindSeq, LAMBDA k : k \in ov)
+EpItem(ov, mig, rep, feat, gen, rev) ==
+    LET ovs0 == SelectSeq(KindSeq, LAMBDA k : k \in ov)
+        ovs == IF rev THEN Reverse(ovs0) ELSE ovs0
         replyH == IF feat
                   THEN [H("on_done", "reply", <<P("payload", "Binary")>>) EXCEPT
                           !.attrs = <<A("sv::msg", "reply, reply_on = always")>>,
                           !.params = <<P("result", "SubMsgResult"), [P("payload", "Binary") EXCEPT !.attrs = <<A("sv::payload", "raw")>>]>>]
                   ELSE H("on_done", "reply", <<P("reply", "Reply")>>)
     IN [BaseItem("E" \o B2S(mig) \o B2S(rep) \o B2S(feat) \o B2S(gen) \o "_"
-                     \o FoldLeft(LAMBDA acc, k : acc \o (IF k \in ov THEN "1" ELSE "0"), "", KindSeq),
+                     \o FoldLeft(LAMBDA acc, k : acc \o (IF k \in ov THEN "1" ELSE "0"), "", KindSeq) \o (IF rev THEN "r" ELSE ""),
                  "ep", "entry_points") EXCEPT
           !.mattr = IF gen THEN "generics<Empty>" ELSE "",
           !.attrs = [i \in 1..Len(ovs) |-> OvAttr(ovs[i])] \o (IF feat THEN <<A("sv::features", "replies")>> ELSE <<>>),
@@ -51,8 +53,10 @@ EpItem(ov, mig, rep, feat, gen) ==
                       \o <<H("do_it", "exec", <<>>)>>
                       \o (IF mig THEN <<H("migrate", "migrate", <<>>)>> ELSE <<>>)
                       \o (IF rep THEN <<replyH>> ELSE <<>>)]
-EpFamily == {EpItem(ov, mig, rep, feat, gen) :
+EpFamily == {EpItem(ov, mig, rep, feat, gen, FALSE) :
                 ov \in SUBSET AllKinds, mig \in BOOLEAN, rep \in BOOLEAN, feat \in BOOLEAN, gen \in BOOLEAN}
+       \cup {EpItem(ov, mig, rep, FALSE, FALSE, TRUE) :       \* the same overrides declared in the opposite order (C14)
+                ov \in {o \in SUBSET AllKinds : Cardinality(o) >= 2}, mig \in BOOLEAN, rep \in BOOLEAN}
 
 (* ------------------------------------------------------------------ pt *)
 (* attribute pools per site; choice 0 = nothing *)
@@ -77,7 +81,7 @@ PtItem(mac, c) ==      \* c: choice per site <<item, handler, helper, handler pa
                        !.attrs = Pick(HandlerPool, c[2]) \o <<A("sv::msg", "exec")>>, !.vis = "pub"]
         helper == [name |-> "helper", vis |-> "pub(crate)", attrs |-> Pick(HelperPool, c[3]), kind |-> "", ctx |-> "",
                    params |-> <<[P("z", "u32") EXCEPT !.attrs = Pick(LParamPool, c[5])]>>, ret |-> "u32",
-                   body |-> "7", retm |-> <<>>]
+                   body |-> "7", retm |-> <<>>, ctxattr |-> ""]
         id == "P" \o (IF mac = "contract" THEN "c" ELSE IF mac = "interface" THEN "i" ELSE "e")
                   \o ToString(c[1]) \o ToString(c[2]) \o ToString(c[3]) \o ToString(c[4]) \o ToString(c[5])
     IN IF mac = "interface"
@@ -157,8 +161,68 @@ RespTypes == {TyNone} \cup {TyDirect(TP(i)) : i \in 1..GenParams}
 GenSeq == SetToSeq(ArgTypes \X ArgTypes \X ArgTypes \X RespTypes)
 GenFamily == {GenItem(GenSeq[i][1], GenSeq[i][2], GenSeq[i][3], GenSeq[i][4], "G" \o ToString(i)) : i \in 1..Len(GenSeq)}
 
+
+(* ---------------------------------------------------------------- rule *)
+(* one rule-breaking edit per documented rule (C18), each on a valid host *)
+RuleHost == [BaseItem("host", "rule", "contract") EXCEPT
+               !.attrs = <<A("sv::error", "ContractError")>>,
+               !.members = <<New, H("instantiate", "instantiate", <<P("a", "u32")>>), H("foo", "exec", <<P("x", "u32")>>),
+                             H("ask", "query", <<P("q", "u32")>>)>>]
+ReplyHost == [RuleHost EXCEPT !.attrs = <<A("sv::error", "ContractError"), A("sv::features", "replies")>>]
+IfaceHost == [BaseItem("ihost", "rule", "interface") EXCEPT
+               !.attrs = <<A("sv::custom", "msg = Empty, query = Empty")>>, !.self_ty = "Iface",
+               !.members = <<[H("foo", "exec", <<P("x", "u32")>>) EXCEPT !.body = ""], [H("ask", "query", <<P("q", "u32")>>) EXCEPT !.body = ""]>>]
+RH(name, on, params) == [H(name, "reply", params) EXCEPT !.attrs = <<A("sv::msg", "reply, reply_on = " \o on)>>, !.ret = "Result<Response, ContractError>"]
+DataP(attr) == [P("data", "Binary") EXCEPT !.attrs = <<attr>>]
+RawP == [P("payload", "Binary") EXCEPT !.attrs = <<A("sv::payload", "raw")>>]
+Bad(host, id, rule, f) == [f EXCEPT !.id = id, !.rule = rule, !.expect = "dirty"]
+Ok(host, id) == [host EXCEPT !.id = id]
+WithMembers(host, ms) == [host EXCEPT !.members = ms]
+AddMember(host, m) == [host EXCEPT !.members = @ \o <<m>>]
+SetMember(host, i, m) == [host EXCEPT !.members[i] = m]
+RuleFamily == {
+    Ok(RuleHost, "K_host"), Ok(ReplyHost, "K_rhost"), Ok(IfaceHost, "K_ihost"),
+    Ok(AddMember(ReplyHost, RH("on_done", "success", <<DataP(A("sv::data", "raw")), RawP>>)), "K_reply_ok"),
+    Bad(RuleHost, "X_no_new", "missing_new", WithMembers(RuleHost, Tail(RuleHost.members))),
+    Bad(RuleHost, "X_new_param", "new_with_parameter", SetMember(RuleHost, 1, [New EXCEPT !.params = <<P("p", "u32")>>, !.ctx = ""])),
+    Bad(RuleHost, "X_no_inst", "missing_instantiate", WithMembers(RuleHost, <<New, RuleHost.members[3], RuleHost.members[4]>>)),
+    Bad(RuleHost, "X_two_inst", "two_instantiate", AddMember(RuleHost, H("instantiate2", "instantiate", <<>>))),
+    Bad(RuleHost, "X_two_mig", "two_migrate", AddMember(AddMember(RuleHost, H("migrate", "migrate", <<>>)), H("migrate2", "migrate", <<>>))),
+    Bad(IfaceHost, "X_if_inst", "instantiate_in_interface", AddMember(IfaceHost, [H("instantiate", "instantiate", <<>>) EXCEPT !.body = ""])),
+    Bad(IfaceHost, "X_if_mig", "migrate_in_interface", AddMember(IfaceHost, [H("migrate", "migrate", <<>>) EXCEPT !.body = ""])),
+    Bad(IfaceHost, "X_if_gen", "generics_on_interface", [IfaceHost EXCEPT !.self_ty = "Iface<T>"]),
+    Bad(IfaceHost, "X_if_noerr", "interface_without_error_type", [IfaceHost EXCEPT !.noerror = TRUE]),
+    Bad(RuleHost, "X_kind", "unknown_message_kind", SetMember(RuleHost, 3, [RuleHost.members[3] EXCEPT !.attrs = <<A("sv::msg", "execute")>>])),
+    Bad(RuleHost, "X_msgarg", "unknown_sv_msg_argument", SetMember(RuleHost, 3, [RuleHost.members[3] EXCEPT !.attrs = <<A("sv::msg", "exec, foo = bar")>>])),
+    Bad(ReplyHost, "X_replyon", "unknown_reply_on", AddMember(ReplyHost, [RH("on_done", "sometimes", <<RawP>>) EXCEPT !.params = <<P("r", "SubMsgResult"), RawP>>])),
+    Bad(RuleHost, "X_dupmsg", "two_sv_msg_on_one_method", SetMember(RuleHost, 3, [RuleHost.members[3] EXCEPT !.attrs = <<A("sv::msg", "exec"), A("sv::msg", "exec")>>])),
+    Bad(RuleHost, "X_dupcustom", "two_sv_custom", [RuleHost EXCEPT !.attrs = @ \o <<A("sv::custom", "msg = Empty"), A("sv::custom", "msg = Empty")>>]),
+    Bad(RuleHost, "X_duperror", "two_sv_error", [RuleHost EXCEPT !.attrs = @ \o <<A("sv::error", "ContractError")>>]),
+    Bad(RuleHost, "X_attr_inst", "sv_attr_on_instantiate", SetMember(RuleHost, 2, [RuleHost.members[2] EXCEPT !.attrs = @ \o <<A("sv::attr", "serde(rename = \"z\")")>>])),
+    Bad(RuleHost, "X_pattern", "pattern_argument", SetMember(RuleHost, 3, [RuleHost.members[3] EXCEPT !.params = <<P("(a, b)", "(u32, u32)")>>])),
+    Bad(RuleHost, "X_ctxattr", "sylvia_attribute_on_ctx", SetMember(RuleHost, 3, [RuleHost.members[3] EXCEPT !.ctxattr = "#[sv::data]"])),
+    Bad(ReplyHost, "X_r_nopayload", "reply_without_payload", AddMember(ReplyHost, RH("on_done", "success", <<>>))),
+    Bad(ReplyHost, "X_r_datasecond", "data_marker_not_first", AddMember(ReplyHost, RH("on_done", "success", <<P("p", "u32"), DataP(A("sv::data", "raw"))>>))),
+    Bad(ReplyHost, "X_r_dataerr", "data_marker_on_error_handler", AddMember(ReplyHost, RH("on_done", "error", <<P("e", "String"), DataP(A("sv::data", "raw")), RawP>>))),
+    Bad(ReplyHost, "X_r_afterraw", "parameter_after_raw_payload", AddMember(ReplyHost, RH("on_done", "success", <<RawP, P("p", "u32")>>))),
+    Bad(ReplyHost, "X_r_beforeraw", "parameter_before_raw_payload", AddMember(ReplyHost, RH("on_done", "success", <<P("p", "u32"), RawP>>))),
+    Bad(ReplyHost, "X_dataarg", "unknown_sv_data_argument", AddMember(ReplyHost, RH("on_done", "success", <<DataP(A("sv::data", "foo")), RawP>>))),
+    Bad(ReplyHost, "X_datainstraw", "sv_data_instantiate_with_raw", AddMember(ReplyHost, RH("on_done", "success", <<DataP(A("sv::data", "instantiate, raw")), RawP>>))),
+    Bad(ReplyHost, "X_payloadempty", "sv_payload_without_argument", AddMember(ReplyHost, RH("on_done", "success", <<[P("payload", "Binary") EXCEPT !.attrs = <<A("sv::payload", "")>>]>>))),
+    Bad(ReplyHost, "X_payloadarg", "unknown_sv_payload_argument", AddMember(ReplyHost, RH("on_done", "success", <<[P("payload", "Binary") EXCEPT !.attrs = <<A("sv::payload", "foo")>>]>>))),
+    Bad(RuleHost, "X_features", "unknown_feature", [RuleHost EXCEPT !.attrs = @ \o <<A("sv::features", "bogus")>>]),
+    Bad(RuleHost, "X_customarg", "unknown_sv_custom_argument", [RuleHost EXCEPT !.attrs = @ \o <<A("sv::custom", "foo = Empty")>>]),
+    Bad(RuleHost, "X_messages", "trailing_tokens_in_sv_messages", [RuleHost EXCEPT !.attrs = @ \o <<A("sv::messages", "i1 as Iface1 garbage")>>]),
+    Bad(RuleHost, "X_msgattr", "unknown_kind_in_sv_msg_attr", [RuleHost EXCEPT !.attrs = @ \o <<A("sv::msg_attr", "bogus, derive(PartialOrd)")>>]),
+    Bad(RuleHost, "X_override", "unknown_kind_in_override_entry_point", [RuleHost EXCEPT !.attrs = @ \o <<A("sv::override_entry_point", "bogus = crate::f(M)")>>]),
+    Bad(RuleHost, "X_alias", "query_with_aliased_result_and_no_resp", SetMember(RuleHost, 4, [RuleHost.members[4] EXCEPT !.ret = "MyResult"])),
+    Bad(RuleHost, "X_epgenerics", "entry_points_without_concrete_types",
+        [RuleHost EXCEPT !.macro = "entry_points", !.generics = <<"T">>, !.self_ty = "Ctr<T>"]),
+    Bad(RuleHost, "X_epnoinst", "entry_points_without_instantiate",
+        [WithMembers(RuleHost, <<New, RuleHost.members[3]>>) EXCEPT !.macro = "entry_points"]) }
+
 (* ---------------------------------------------------------------- model *)
-Items == TLCEval(SetToSeq(EpFamily \cup PtFamily \cup FwFamily \cup GenFamily))
+Items == TLCEval(SetToSeq(EpFamily \cup PtFamily \cup FwFamily \cup GenFamily \cup RuleFamily))
 
 VARIABLES item,      \* index into Items
           stage,     \* "source" | "expanded"
@@ -193,5 +257,5 @@ EmitItems ==
     /\ TLCGet("stats").generated > 0
     /\ ndJsonSerialize(IOEnv.VERIF_OUT, Items)
     /\ PrintT(<<"ITEMS", Len(Items), "ep", Cardinality(EpFamily), "pt", Cardinality(PtFamily),
-                "fw", Cardinality(FwFamily), "gen", Cardinality(GenFamily)>>)
+                "fw", Cardinality(FwFamily), "gen", Cardinality(GenFamily), "rule", Cardinality(RuleFamily)>>)
 =============================================================================
